@@ -37,3 +37,6 @@ def node(run, P):
 def reply(run, P):
     from rules import r_reply
     r_reply.run(run, P)
+def relonce(run, P):
+    from rules import r_relonce
+    r_relonce.run(run, P)
